@@ -347,7 +347,35 @@ def r4_orientation(ctx):
                 if len(other) == 1 and any(U(o) == tt for o in ops):
                     prop.append((s_, s_.targets[0], other[0]))
     if not prop:
-        ctx.violation("C15.R4", f, fl, "the ancestors of a node are never propagated to its children (no `|=` on the path matrix inside the traversal): transitive closures lose every indirect link")
+        # another way to the closure: repeated squaring of the (re-ordered) adjacency matrix after the traversal, `for _ in range(E): M = M | (M @ M > 0)`
+        sq = [lp for lp in ast.walk(f.node) if isinstance(lp, ast.For) and lp is not fl and not any(x is lp for x in ast.walk(fl)) and isinstance(lp.iter, ast.Call) and U(lp.iter.func) == "range"
+              and len(lp.iter.args) == 1 and any(isinstance(x, ast.BinOp) and isinstance(x.op, ast.MatMult) for x in ast.walk(lp))
+              and any(isinstance(x, ast.BinOp) and isinstance(x.op, ast.BitOr) for x in ast.walk(lp))]
+        if sq:
+            import math as _math
+            rounds_expr = sq[0].iter.args[0]
+            names = sorted({x.id for x in ast.walk(rounds_expr) if isinstance(x, ast.Name)})
+            short = None
+            undecided = len(names) != 1
+            if not undecided:
+                for n_ in range(2, 70):
+                    try:
+                        k_ = eval(compile(ast.Expression(rounds_expr), "<rounds>", "eval"), {"__builtins__": {}, "math": _math, "len": len, "int": int, "max": max, "min": min}, {names[0]: n_})
+                    except Exception:
+                        undecided = True
+                        break
+                    if 2 ** int(k_) < n_ - 1:
+                        short = (n_, int(k_))
+                        break
+            if undecided:
+                ctx.unknown("C15.R4", f, sq[0], f"the closure is computed by repeated squaring with `{U(rounds_expr)[:60]}` rounds, which cannot be evaluated on sizes", construct="closure by repeated squaring")
+            elif short:
+                ctx.violation("C15.R4", f, sq[0], f"the closure is computed by {U(rounds_expr)[:50]} rounds of squaring: for {short[0]} variables that is {short[1]} round(s), i.e. paths of at most {2 ** short[1]} edges, "
+                              f"while a chain of {short[0]} variables has a path of {short[0] - 1}: the transitive children / ancestors of long, thin graphs are incomplete", construct="closure by repeated squaring")
+            else:
+                ctx.ok("C15.R4", f, sq[0], f"closure by repeated squaring: {U(rounds_expr)[:50]} rounds cover paths of n - 1 edges for every n = 2 .. 69", construct="closure by repeated squaring")
+        else:
+            ctx.violation("C15.R4", f, fl, "the ancestors of a node are never propagated to its children (no `|=` on the path matrix inside the traversal): transitive closures lose every indirect link")
     for s_, t, v in prop:
         pm = U(t.value)
 
@@ -360,14 +388,22 @@ def r4_orientation(ctx):
                       f"`{U(s_)}`: the column written is that of `{idx_of.get(tj)}` and the one read that of `{idx_of.get(vi)}` - ancestors must flow from the popped node to its child")
         else:
             ctx.unknown("C15.R4", f, s_, "propagation statement is not of the column-wise form `M[:, child] |= M[:, parent]`")
+    def _node_of(e):
+        """the graph node whose index `e` is: a name bound to `ix[node]`, or `ix[node]` itself"""
+        if isinstance(e, ast.Name):
+            return idx_of.get(e.id)
+        if isinstance(e, ast.Subscript) and isinstance(e.slice, ast.Name):
+            return e.slice.id
+        return None
     edges = [s_ for s_ in ast.walk(fl) if isinstance(s_, ast.Assign) and isinstance(s_.targets[0], ast.Subscript) and U(s_.value) == "True" and isinstance(s_.targets[0].slice, ast.Tuple)
-             and len(s_.targets[0].slice.elts) == 2 and all(isinstance(e, ast.Name) for e in s_.targets[0].slice.elts)]
+             and len(s_.targets[0].slice.elts) == 2 and all(isinstance(e, (ast.Name, ast.Subscript)) for e in s_.targets[0].slice.elts)]
     if not edges:
         ctx.violation("C15.R4", f, fl, "the direct edge parent -> child is never written into the path matrix")
     for s_ in edges:
-        r_, c_ = (e.id for e in s_.targets[0].slice.elts)
-        good = popped and idx_of.get(r_) == popped[0] and idx_of.get(c_) == child
-        ctx.check(good, "C15.R4", f, s_, "direct edge written at [parent, child]", f"`{U(s_)}` writes the edge at [{idx_of.get(r_)}, {idx_of.get(c_)}], not [parent, child]: rows would hold ancestors, columns descendants")
+        r_, c_ = s_.targets[0].slice.elts
+        good = popped and _node_of(r_) == popped[0] and _node_of(c_) == child
+        idx_of_ = {U(r_): _node_of(r_), U(c_): _node_of(c_)}
+        ctx.check(good, "C15.R4", f, s_, "direct edge written at [parent, child]", f"`{U(s_)}` writes the edge at [{_node_of(r_)}, {_node_of(c_)}], not [parent, child]: rows would hold ancestors, columns descendants")
     L = Canon(f.node).lines(False, True)
     ok = unify(L, ["?sn += (?n,)", "?ix = [?idx[?m] for ?m in ?sn]", "?pm = ?pm[?ix, :][:, ?ix]", "return (?sn, ?pm)"]) is not None
     ctx.anchor(ok, "C15.R4", f, f.node, "rows and columns permuted into the emitted order", "re-indexing of the path matrix into the emitted order", construct="re-indexing")
